@@ -51,6 +51,14 @@ type harness struct {
 }
 
 func (h *harness) violate(sig, detail string, rp replay) {
+	if h.fl.Sub == "C10params" {
+		// this run serves C10's clause "the retry uses the parameter values of the recorded run":
+		// only what a retry sees counts, reported under C10
+		if !strings.Contains(sig, "/params/retry-") && !strings.Contains(sig, "/params/roundtrip-") && !strings.Contains(sig, "/params/hang/retry") {
+			return
+		}
+		sig = "C10" + strings.TrimPrefix(sig, "C11")
+	}
 	h.res.Violate(sig, detail, rp)
 	if h.fl.Replay != "" {
 		fmt.Fprintf(os.Stderr, "  %s: %s\n", sig, detail)
@@ -259,6 +267,9 @@ func main() {
 		k++
 	}
 	om := enumOutputs(fl.Thorough())
+	if fl.Sub == "C10params" {
+		om = nil
+	}
 	for _, m := range om {
 		if fl.Mine(k) {
 			h.guard(func() { h.runOutput(m) }, replay{O: &m})
